@@ -21,6 +21,7 @@ import (
 	"hash/crc32"
 	"os"
 	"path/filepath"
+	"runtime"
 	"sort"
 	"strings"
 	"syscall"
@@ -146,7 +147,10 @@ type Mismatch struct {
 }
 
 func (m *Mismatch) Signature() string {
-	return m.Level + "/" + m.Fault.Kind + "/" + m.Region + "/" + m.Kind
+	// kind first: a known finding can then be listed by exact signature or by a
+	// "level/kind/*" prefix, while a different kind of failure on the same
+	// fault class stays a new violation
+	return m.Level + "/" + m.Kind + "/" + m.Fault.Kind + "/" + m.Region
 }
 func (m *Mismatch) Error() string {
 	return fmt.Sprintf("%s fault=%+v: %s", m.Signature(), m.Fault, m.Msg)
@@ -476,6 +480,37 @@ func damage(orig []byte, f Fault) []byte {
 	return out
 }
 
+// guarded runs fn and turns a panic raised inside the repository's code into a
+// description (function that panicked, message). Recovery that crashes is a
+// failure of "opening the database succeeds", not an infrastructure problem.
+func guarded(fn func()) (where, msg string, panicked bool) {
+	defer func() {
+		if r := recover(); r != nil {
+			if s, ok := r.(string); ok && (strings.HasPrefix(s, "harness:") || strings.HasPrefix(s, "scratch space")) {
+				panic(r)
+			}
+			panicked = true
+			msg = fmt.Sprint(r)
+			where = "unknown"
+			pcs := make([]uintptr, 64)
+			n := runtime.Callers(2, pcs)
+			frames := runtime.CallersFrames(pcs[:n])
+			for {
+				fr, more := frames.Next()
+				if strings.Contains(fr.Function, "github.com/KevoDB/kevo/") {
+					where = fr.Function[strings.LastIndex(fr.Function, "/")+1:]
+					break
+				}
+				if !more {
+					break
+				}
+			}
+		}
+	}()
+	fn()
+	return
+}
+
 // ---------------------------------------------------------------------------
 // level 1
 
@@ -530,7 +565,7 @@ func checkL1(l *layout, ix index, walDir string, f Fault, region string) (*Misma
 	seen := make([]int, len(l.ents))
 	var mm *Mismatch
 	lastIdx := -1
-	_, _ = wal.ReplayWALDir(walDir, func(e *wal.Entry) error {
+	handler := func(e *wal.Entry) error {
 		if mm != nil {
 			return nil
 		}
@@ -582,7 +617,10 @@ func checkL1(l *layout, ix index, walDir string, f Fault, region string) (*Misma
 		}
 		lastIdx = hit
 		return nil
-	})
+	}
+	if where, msg, panicked := guarded(func() { _, _ = wal.ReplayWALDir(walDir, handler) }); panicked {
+		return &Mismatch{Level: "L1", Fault: f, Region: region, Kind: "panic-in-" + where, Msg: "ReplayWALDir panicked: " + msg}, st
+	}
 	if mm != nil {
 		return mm, st
 	}
@@ -696,7 +734,11 @@ func checkEngine(c *Case, l *layout, base string, f Fault, region string) *Misma
 	}
 	walDir := filepath.Join(base, "wal")
 	before := listLogs(walDir)
-	eng, err := drive.Open(base, c.Cfg)
+	var eng *engine.EngineFacade
+	var err error
+	if where, msg, panicked := guarded(func() { eng, err = drive.Open(base, c.Cfg) }); panicked {
+		return mk("L2", "panic-in-"+where, "NewEngineFacade on the damaged directory panicked: "+msg)
+	}
 	if err != nil {
 		return mk("L2", "open-error", "NewEngineFacade on the damaged directory: "+err.Error())
 	}
@@ -722,10 +764,13 @@ func checkEngine(c *Case, l *layout, base string, f Fault, region string) *Misma
 			for _, de := range des {
 				names = append(names, de.Name())
 			}
-			kind := "log-file-discarded"
-			if i < len(before)-1 {
-				kind = "undamaged-log-file-discarded"
+			if i == len(before)-1 {
+				// the property protects undamaged files; what happens to the damaged
+				// one is judged through the state it should have contributed
+				ev.R().Count("damaged_file_moved_aside", 1)
+				continue
 			}
+			kind := "undamaged-log-file-discarded"
 			return mk("L2", kind, fmt.Sprintf("%s (%s) is no longer in the log directory after opening; directory now holds %v", n, which, names))
 		}
 	}
@@ -838,7 +883,10 @@ func checkEngine(c *Case, l *layout, base string, f Fault, region string) *Misma
 	if err := eng.Close(); err != nil {
 		return mk("L3", "close-error", err.Error())
 	}
-	eng2, err := engine.NewEngineFacade(base)
+	var eng2 *engine.EngineFacade
+	if where, msg, panicked := guarded(func() { eng2, err = engine.NewEngineFacade(base) }); panicked {
+		return mk("L3", "panic-in-"+where, "second open panicked: "+msg)
+	}
 	if err != nil {
 		return mk("L3", "reopen-error", "second open: "+err.Error())
 	}
@@ -876,7 +924,7 @@ func checkEngine(c *Case, l *layout, base string, f Fault, region string) *Misma
 			ev.R().Count("second_recovery_differs_within_allowed", 1)
 		}
 	}
-	for _, n := range before {
+	for _, n := range before[:len(before)-1] {
 		found := false
 		for _, m := range listLogs(walDir) {
 			if m == n {
@@ -884,7 +932,7 @@ func checkEngine(c *Case, l *layout, base string, f Fault, region string) *Misma
 			}
 		}
 		if !found {
-			return mk("L3", "log-file-discarded", n+" left the log directory at the second open")
+			return mk("L3", "undamaged-log-file-discarded", n+" left the log directory at the second open")
 		}
 	}
 	return nil
@@ -1047,6 +1095,10 @@ func genVal(t *rapid.T, tag *uint32, klen int, small bool) *Val {
 	if v.Len < 1 {
 		v.Len = 1
 	}
+	if v.Hostile && !ev.Flag("hostile_values") {
+		ev.R().Exclude("hostile_values")
+		v.Hostile = false
+	}
 	return v
 }
 
@@ -1081,11 +1133,13 @@ func genFault(t *rapid.T, c *Case, l *layout) Fault {
 	}
 	kind := rapid.SampledFrom([]string{"trunc", "byte", "byte"}).Draw(t, "fkind")
 	if kind == "trunc" {
-		reg := rapid.SampledFrom([]string{"boundary", "header", "payload", "payload"}).Draw(t, "region")
+		reg := rapid.SampledFrom([]string{"boundary", "header", "after-header", "payload", "payload", "payload"}).Draw(t, "region")
 		var off int
 		switch reg {
 		case "boundary":
 			off = r.off
+		case "after-header":
+			off = r.off + 7
 		case "header":
 			off = r.off + rapid.IntRange(1, 6).Draw(t, "d")
 		default:
@@ -1093,6 +1147,11 @@ func genFault(t *rapid.T, c *Case, l *layout) Fault {
 			if rapid.IntRange(0, 3).Draw(t, "edge") == 0 {
 				off = r.end() - 1
 			}
+		}
+		if off == r.off+7 && !ev.Flag("cut_after_header") {
+			// header complete, payload absent (see region "after-header")
+			ev.R().Exclude("cut_after_header")
+			off = r.off + 8
 		}
 		tornTail := off != l.appStart[r.app] // anything that is not a boundary between logical appends
 		if tornTail && !ev.Flag("torn_tail") {
@@ -1111,6 +1170,16 @@ func genFault(t *rapid.T, c *Case, l *layout) Fault {
 	if (reg == "len" || reg == "type") && !ev.Flag("header_byte_faults") {
 		ev.R().Exclude("header_byte_faults")
 		reg = "payload"
+	}
+	if size-(r.off+7) >= 32*1024 && !ev.Flag("corrupt_with_32k_tail") {
+		// the reader answers a corrupt record by skipping 32 KiB blindly; with
+		// that much log behind the damaged record it resumes parsing in the
+		// middle of data
+		ev.R().Exclude("corrupt_with_32k_tail")
+		for size-(rs[ri].off+7) >= 32*1024 { // (a damaged length or type byte makes the reader consume only the header)
+			ri++
+		}
+		r = rs[ri]
 	}
 	var off int
 	switch reg {
@@ -1288,10 +1357,12 @@ func TestPropExhaustive(t *testing.T) {
 			if off != l.appStart[a] && !tornOK {
 				continue
 			}
+			if reg == "after-header" && !ev.Flag("cut_after_header") {
+				continue
+			}
 			if c.Apps[a].Batch && off > l.appStart[a] && off < l.appEnd[a] && !batchOK {
 				continue
 			}
-			_ = reg
 			c.Faults = append(c.Faults, f)
 		}
 		for off := 0; off < size; off++ {
